@@ -205,3 +205,102 @@ func VerifC18MerkleProof() {
 	verifAssert(err2 != nil, "proof-without-header-or-hash-accepted")
 	verifReach("done")
 }
+
+func init() {
+	verifHarnesses["VerifC18History"] = VerifC18History
+}
+
+// VerifC18History: proofs for blocks anywhere in a repository with history: on the best chain
+// above and below the pruned depth (header files), on a recent side branch, on an old side branch
+// that a reload drops; optionally after Clean and after Save/Load. A valid proof for a best-chain
+// block always verifies; whenever verification succeeds the reported height and best-chain flag
+// are the true ones.
+func VerifC18History() {
+	n := verifParam("long", 7)
+	h := newHist(1000)
+	txsOf := map[int][]bitcoin.Hash32{}
+	addBlock := func(parent, ntx int) int {
+		i := len(h.hdr)
+		var txs []bitcoin.Hash32
+		for k := 0; k < ntx; k++ {
+			txs = append(txs, txidOf(i, k))
+		}
+		root, _, _ := refMerkle(txs, 0)
+		hd := &wire.BlockHeader{Version: 1, Timestamp: uint32(1600000000 + 600*i), Bits: verifBitsTable[0], Nonce: uint32(1000 + i), MerkleRoot: root}
+		hd.PrevBlock = h.hash[parent]
+		idx := h.record(hd, parent)
+		if err := h.repo.ProcessHeader(h.ctx, hd); err != nil {
+			verifAssert(false, "setup-header-refused")
+		}
+		txsOf[idx] = txs
+		return idx
+	}
+	p := 0
+	for k := 0; k < n; k++ {
+		i := addBlock(p, 1+k%3)
+		if k == 1 {
+			addBlock(p, 2) // an old side block low in the chain
+		}
+		p = i
+	}
+	if err := h.repo.Clean(h.ctx); err != nil {
+		verifAssert(false, "setup-clean-failed")
+	}
+	s1 := addBlock(h.parent[p], 2) // a recent side branch of two
+	addBlock(s1, 3)
+
+	switch pick("then", 4) {
+	case 1:
+		if err := h.saveLoad(); err != nil {
+			verifAssert(false, "save-load-returns-error")
+			return
+		}
+		verifReach("reloaded")
+	case 2:
+		h.repo.Clean(h.ctx)
+		verifReach("cleaned")
+	case 3:
+		p = addBlock(p, 1)
+		if err := h.saveLoad(); err != nil {
+			verifAssert(false, "save-load-returns-error")
+			return
+		}
+		h.repo.Clean(h.ctx)
+		verifReach("extended-reloaded-cleaned")
+	}
+	tip := h.indexOfHash(h.repo.LastHash())
+
+	b := 1 + pick("block", len(h.hdr)-1)
+	txs := txsOf[b]
+	j := pick("txpos", len(txs))
+	_, path, dups := refMerkle(txs, j)
+	txid := txs[j]
+	proof := &merkle_proof.MerkleProof{Index: j, TxID: &txid, Path: path, DuplicatedIndexes: dups}
+	withHeader := nondetBool("with-header")
+	if withHeader {
+		c := h.hdr[b].Copy()
+		proof.BlockHeader = &c
+	} else {
+		bh := h.hash[b]
+		proof.BlockHash = &bh
+	}
+	height, longest, err := h.repo.VerifyMerkleProof(h.ctx, proof)
+	onBest := h.isAncestor(b, tip)
+	verifObserve("proof", b, j, withHeader, onBest, err == nil, height, longest)
+	if onBest {
+		verifReach("best-chain-block")
+		verifAssert(err == nil, "valid-proof-for-best-chain-block-rejected")
+	} else {
+		verifReach("side-block")
+	}
+	if err == nil {
+		verifAssert(height == h.height[b], "proof-height-wrong")
+		verifAssert(longest == onBest, "proof-best-chain-flag-wrong")
+	}
+	// the same proof with another txid never verifies
+	other := txidOf(200, 0)
+	proof.TxID = &other
+	_, _, err3 := h.repo.VerifyMerkleProof(h.ctx, proof)
+	verifAssert(err3 != nil, "altered-proof-accepted:history")
+	verifReach("done")
+}
